@@ -58,6 +58,23 @@ Theorem C18_isolated : forall en name p,
 Proof. exact isolated_thm. Qed.
 Print Assumptions C18_isolated.
 
+(* the same on the raw entries (the very field lists handed to the core, not only their
+   denotation), by abstraction of the heap: a handler is a pure value determined by its own
+   derivation.  It does not depend on the conversion function: it holds before the fix too. *)
+Theorem C18_isolated_entries : forall en name p,
+  run_fixed en name p =
+  flat_map (fun x => match x with (ops, l, m, rec) => run_fixed en name (chain ops l m rec) end)
+           (handled_paths [[]] p).
+Proof. exact isolated_raw_fixed. Qed.
+Print Assumptions C18_isolated_entries.
+
+Theorem C18_isolated_entries_orig : forall en name p,
+  run_orig en name p =
+  flat_map (fun x => match x with (ops, l, m, rec) => run_orig en name (chain ops l m rec) end)
+           (handled_paths [[]] p).
+Proof. exact isolated_raw_orig. Qed.
+Print Assumptions C18_isolated_entries_orig.
+
 Theorem C18_level_monotone : forall l1 l2, l1 <= l2 -> convert_slog_level l1 <= convert_slog_level l2.
 Proof. exact level_monotone. Qed.
 Print Assumptions C18_level_monotone.
